@@ -280,6 +280,11 @@ func binHelpers(c *ev.Collector, test string, maxLen int) {
 	var n int64
 	check := func(b []byte) {
 		n++
+		defer func() {
+			if r := recover(); r != nil {
+				c.Violation(test, "bin-helper-no-panic", "panic", []string{"helper"}, fmt.Sprintf("len=%d", len(b)), "binary header helpers panicked for a value of %d bytes (%x...): %v", len(b), clipBytes(b, 8), r)
+			}
+		}()
 		enc := connect.EncodeBinaryHeader(b)
 		dec, err := connect.DecodeBinaryHeader(enc)
 		if err != nil || !bytes.Equal(dec, b) {
@@ -315,6 +320,20 @@ func binHelpers(c *ev.Collector, test string, maxLen int) {
 				}
 			}
 		}
+	}
+	// length sweep: three byte patterns of every length up to 2100 (lengths straddling any
+	// fixed-size scratch space, every residue mod 3 of the base64 grouping)
+	for l := 4; l <= 2100; l++ {
+		if l%shards != shard {
+			continue
+		}
+		zero, ones, ramp := make([]byte, l), bytes.Repeat([]byte{0xff}, l), make([]byte, l)
+		for i := range ramp {
+			ramp[i] = byte(i*7 + l)
+		}
+		check(zero)
+		check(ones)
+		check(ramp)
 	}
 	c.AddEvaluations(n)
 	c.AddDistinct(n)
